@@ -2438,3 +2438,40 @@ M("C07-signed-expansion-gets-parentheses", "C07", F_PP,
 M("C11-merge-looks-up-plain-name", "C11", F_DBX,
   "      ni = types_by_name.find(other_type.get_true_name());", "      ni = types_by_name.find(other_type.get_name());",
   expect="R11.13|merge_from|types_by_name.find")
+# ---- R15.34 (F-C15ae: a namespace definition that reopens an enclosing namespace)
+_NSG = """  for (CPPScope *enclosing = current_scope;
+       scope != nullptr && enclosing != nullptr;
+       enclosing = enclosing->get_parent_scope()) {
+    if (enclosing == scope) {
+      // The name leads back to a namespace we are inside of (an enclosing
+      // namespace of the same name, or an alias of one).  Reopening that
+      // here would make the namespace contain itself; this is a new one.
+      scope = nullptr;
+    }
+  }
+"""
+M("C15-namespace-enclosing-guard-reverted", "C15", F_Y, _NSG, "",
+  expect="R15.34|case418|scope|not-an-enclosing-namespace")
+M("C15-namespace-guard-skips-current-scope", "C15", F_Y, _NSG,
+  _NSG.replace("CPPScope *enclosing = current_scope;", "CPPScope *enclosing = current_scope->get_parent_scope();"),
+  expect="R15.34|case418|scope|not-an-enclosing-namespace")
+M("C15-namespace-guard-inverted", "C15", F_Y, _NSG, _NSG.replace("if (enclosing == scope) {", "if (enclosing != scope) {"),
+  expect="R15.34|case418|scope|not-an-enclosing-namespace")
+M("C15-namespace-guard-does-not-drop", "C15", F_Y, _NSG,
+  _NSG.replace("      scope = nullptr;\n", "      yywarning(\"namespace reopens an enclosing namespace\", @1);\n"),
+  expect="R15.34|case418|scope|not-an-enclosing-namespace")
+M("C15-namespace-guard-stops-at-first", "C15", F_Y, _NSG,
+  _NSG.replace("    if (enclosing == scope) {", "    if (enclosing != current_scope) {\n      break;\n    }\n    if (enclosing == scope) {"),
+  expect="R15.34|case418|scope|not-an-enclosing-namespace")
+M("C15-namespace-alias-written-by-contents", "C15", "src/cppparser/cppNamespace.cxx",
+  "    if (_alias_of != nullptr) {\n      out << \"= \"", "    if (_alias_of != nullptr && indent_level == 0) {\n      out << \"= \"",
+  expect="R15.34|CPPNamespace::output|descends-only-without-alias")
+M("C15-benign-namespace-guard-as-while", "C15", F_Y, _NSG,
+  """  CPPScope *outer = current_scope;
+  while (outer != nullptr && scope != nullptr) {
+    if (scope == outer) {
+      scope = nullptr;
+    }
+    outer = outer->get_parent_scope();
+  }
+""", benign=True)
